@@ -8,7 +8,7 @@ PROP = 'C08'
 LEVEL = 'exploration'
 RULE = ('HIST histories on Rock Ridge configurations (1.09/1.10/1.12 x XA x level), name grammar 1..255 bytes hitting the '
         'lengths where NM/PX/SL spill into continuation areas, symlink targets of all shapes, add/remove histories that fill, '
-        'free and refill continuation blocks; every written image is read by isosim/dec_susp.py (SP/CE/ER/ES/RR/PX/PN/SL/NM/CL/PL/RE/TF); '
+        'free and refill continuation blocks, directory chains to depth 11 (relocation at depth 8: CL/PL/RE, placeholder, RR_MOVED coming and going); every written image is read by isosim/dec_susp.py (SP/CE/ER/ES/RR/PX/PN/SL/NM/CL/PL/RE/TF); '
         'non-trivial: >= 3 accepted edits and >= 1 write; distinct = distinct model shape fingerprints')
 BUDGET = {'quick': 40, 'thorough': 900}
 PROBES = ['images_decoded', 'ce_area_used', 'ce_blocks_ge_2', 'nm_split', 'sl_split', 'symlinks_decoded', 'relocation_seen']
